@@ -21,4 +21,43 @@ def blockOk (cap : Nat) (b : Block) : Bool :=
 
 def holds (cap : Nat) (bs : List Block) : Bool := bs.all (blockOk cap)
 
+/-! ## free-running readers: the abstract pool every observed got/back log must be a run of
+    (Props/C05 `*_held_le_capacity` and `slot_exclusive` show the fine models refine it) -/
+
+inductive FOp
+  | got (r : Nat) (e : Int)   -- logged after get returned
+  | back (r : Nat)            -- logged before back is called
+  | sample (n : Nat)          -- pool.inUse()
+  | fin (inUse waiters : Nat) -- after every reader finished
+  | wedged
+  deriving DecidableEq, Repr
+
+structure APool where
+  cap : Nat
+  held : List (Nat × Int) := []
+  deriving Repr
+
+def APool.step? (p : APool) : FOp → Option APool
+  | .got r e =>
+    if p.held.length < p.cap ∧ !(p.held.any (·.1 == r)) ∧ (e < 0 ∨ !(p.held.any (·.2 == e))) ∧ e < p.cap
+    then some { p with held := (r, e) :: p.held } else none
+  | .back r => if p.held.any (·.1 == r) then some { p with held := p.held.filter (·.1 != r) } else none
+  | .sample n => if n ≤ p.cap then some p else none
+  | .fin a w => if a = 0 ∧ w = 0 ∧ p.held.isEmpty then some p else none
+  | .wedged => none
+
+def FOp.render : FOp → String
+  | .got r e => s!"g{r}.{e}"
+  | .back r => s!"b{r}"
+  | .sample n => s!"u{n}"
+  | .fin a w => s!"end {a} {w}"
+  | .wedged => "wedged"
+
+/-! ## whole pipeline: per event the finalize flag words, and the idle state -/
+
+/-- observed: (offset, kind letter, finalize words) per event, maxok, end counters -/
+def pipeEventOk (k : String) (fins : List Nat) : Bool :=
+  if k = "p" then fins == [3] else if k = "d" then fins == [1] else if k = "h" then fins == [0, 3]
+  else if k = "x" ∨ k = "r" then fins.isEmpty else false
+
 end FileD.SpecC05
